@@ -48,7 +48,11 @@ type Bad = (String, String);
 /// stream position -> expected frame: prefill (coded 100+i), then the source
 /// (coded 1+i), then equilibrium
 fn stream(i: &Init, pos: usize) -> f64 {
-    let (l, s) = (i.len as usize, i.src as usize);
+    stream_src(i, pos, i.src as usize)
+}
+
+fn stream_src(i: &Init, pos: usize, s: usize) -> f64 {
+    let l = i.len as usize;
     if pos < l {
         100.0 + pos as f64
     } else if pos < l + s {
@@ -60,13 +64,18 @@ fn stream(i: &Init, pos: usize) -> f64 {
 
 /// Replay on a fresh Buffered; returns (ring start, ring len, pulled, delivered).
 fn run_history(i: &Init, acts: &[Act], check_from: usize) -> Result<(usize, usize, usize, usize), Bad> {
+    run_history_src(i, acts, check_from, i.src as usize)
+}
+
+/// as run_history, with an explicit source length (the soak probes need more than 255 frames)
+fn run_history_src(i: &Init, acts: &[Act], check_from: usize, src_len: usize) -> Result<(usize, usize, usize, usize), Bad> {
     let cap = i.cap as usize;
     let mut data = vec![-7.0f64; cap];
     for k in 0..i.len as usize {
         data[(i.start as usize + k) % cap] = 100.0 + k as f64;
     }
     let ring = Bounded::from_raw_parts(i.start as usize, i.len as usize, data);
-    let (probe, c) = Probe::new((0..i.src as usize).map(|n| 1.0 + n as f64).collect());
+    let (probe, c) = Probe::new((0..src_len).map(|n| 1.0 + n as f64).collect());
     let mut b = probe.buffered(ring);
     let mut ring_len = i.len as usize;
     let mut pulled = 0usize;
@@ -81,7 +90,7 @@ fn run_history(i: &Init, acts: &[Act], check_from: usize) -> Result<(usize, usiz
                     ring_len = cap;
                 }
                 // stream positions: prefill, then everything pulled from the source (incl. equilibrium padding)
-                let exp = stream(i, delivered);
+                let exp = stream_src(i, delivered, src_len);
                 let f = b.next();
                 ring_len -= 1;
                 delivered += 1;
@@ -97,7 +106,7 @@ fn run_history(i: &Init, acts: &[Act], check_from: usize) -> Result<(usize, usiz
                 let mut it = b.next_frames();
                 for j in 0..k as usize {
                     let got = it.next();
-                    let exp = if ring_len > 0 { Some(stream(i, delivered)) } else { None };
+                    let exp = if ring_len > 0 { Some(stream_src(i, delivered, src_len)) } else { None };
                     if exp.is_some() {
                         ring_len -= 1;
                         delivered += 1;
@@ -109,7 +118,7 @@ fn run_history(i: &Init, acts: &[Act], check_from: usize) -> Result<(usize, usiz
             }
             Act::Exhausted => {
                 let e = b.is_exhausted();
-                let exp = ring_len == 0 && pulled >= i.src as usize;
+                let exp = ring_len == 0 && pulled >= src_len;
                 if chk && e != exp {
                     return Err(("buffered.exhausted".into(), format!("{}: is_exhausted() = {e}, expected {exp} ({ring_len} frames buffered, {pulled} of {} source frames pulled)", tag(), i.src)));
                 }
@@ -311,6 +320,20 @@ fn main() {
         })
         .collect();
     let uniq: usize = res.iter().map(|r| r.0).sum();
+    // soak probes: one long deterministic history per capacity on a single Buffered over a long source
+    let soak_steps = ctx.tier.pick(20_000usize, 200_000);
+    for cap in [1u8, 2, 3, 5, 8, 64] {
+        let i = Init { cap, start: cap - 1, len: cap / 2, src: 0 };
+        guard::enter(&json!({"sys":"buffered_soak","cap":cap,"steps":soak_steps}).to_string());
+        let alpha = alphabet(cap);
+        let acts: Vec<Act> = (0..soak_steps).map(|t| if t % 4 == 3 { alpha[(t * 5 + t / 9) % alpha.len()] } else { Act::Next }).collect();
+        ctx.add_evals(soak_steps as u64);
+        if let Err((k, m)) = run_history_src(&i, &acts, 0, soak_steps * 2) {
+            let short: String = m.chars().rev().take(300).collect::<String>().chars().rev().collect();
+            ctx.violation(&k, json!({"sys":"buffered_soak","cap":cap,"steps":soak_steps}), format!("soak history of {soak_steps} steps, capacity {cap}: ...{short}"), None);
+        }
+    }
+    ctx.rule(&format!("soak probes: one deterministic history of {soak_steps} operations (next() interleaved with the whole alphabet) per capacity in 1,2,3,5,8,64 on a single Buffered over a source longer than the run (single executions, labelled)"));
     ctx.set("initial_states", json!(inits.len()));
     ctx.set("unmerged_histories", json!(hist));
     ctx.set("unmerged_steps_executed", json!(steps));
